@@ -95,15 +95,24 @@ class Slice(NullCell):
             return ExternalAddress(addr, len_)
         if rem != 2:
             raise SliceError('Unsupported address type')
+        offset = 3
+        depth = None
         if self.preload_uint(3) % 2:
-            raise SliceError('Unsupported anycast in preload_address')
+            depth = ba2int(self.preload_bits(8)[3:], signed=False)
+            if depth < 1:
+                raise SliceError('Anycast depth must be greater than 0')
+            pfx = ba2int(self.preload_bits(8 + depth)[8:], signed=False)
+            offset = 8 + depth
 
-        rem = self.preload_bits(267)
+        rem = self.preload_bits(offset + 264)
 
-        wc = ba2int(rem[3:11], signed=True)
-        hash_part = rem[11:].tobytes()
+        wc = ba2int(rem[offset:offset + 8], signed=True)
+        hash_part = rem[offset + 8:].tobytes()
 
-        return Address((wc, hash_part))
+        addr = Address((wc, hash_part))
+        if depth is not None:
+            addr.set_anycast(depth, pfx)
+        return addr
 
     def load_address(self) -> typing.Union[Address, ExternalAddress, None]:
         tag = self.load_uint(2)
